@@ -112,7 +112,7 @@ def counter(F, R):
     n = 0
     bad = {'L1': None, 'L2': None, 'L3inc': None, 'L3dec': None}
     try:
-        for max_cap, cur_cap, max_size, cur_size, size in itertools.product(range(0, 5), repeat=5):
+        for max_cap, cur_cap, max_size, cur_size, size in itertools.product(range(0, 8 if R.tier == 'thorough' else 5), repeat=5):
             env = dict(max_cap=max_cap, cur_cap=cur_cap, max_size=max_size, cur_size=cur_size, size=size)
             n += 1
             if avail('available', env) != avail('is_available', env) and not bad['L2']:
